@@ -675,9 +675,10 @@ def gen(seed, tier, prop="C14"):
             dlen = r.choice((1000, 3000, 3900))
         data = bytes(r.randrange(256) for _ in range(dlen))
         dt = r.choice((None, None, "DINT", "UINT", "STRING", "struct"))
-        status = 0 if r.random() < 0.75 else r.choice((0x01, 0x05, 0x08, 0x0E, 0x14, 0x16, 0x26, 0xFF, r.randrange(1, 256)))
-        if status == 6:
-            status = 5
+        status = 0 if r.random() < 0.75 else r.choice((0x01, 0x05, 0x06, 0x08, 0x0E, 0x14, 0x16, 0x26, 0xFF, r.randrange(1, 256)))
+        svc = r.choice((0x01, 0x0E, 0x10, 0x4B, 0x4C, 0x32, 0x7F, r.randrange(1, 0x80)))
+        if status == 6 and svc in (0x52, 0x53, 0x55, 0x0A, 0x03):
+            status = 5          # partial transfer is not a refusal for the services that continue
         if dt is None:
             rdata = bytes(r.randrange(256) for _ in range(r.choice((0, 1, 2, 5, 64, 300))))
         elif dt == "DINT":
@@ -690,7 +691,7 @@ def gen(seed, tier, prop="C14"):
         else:
             rdata = struct.pack("<HiB", r.randrange(65536), r.randrange(-2**31, 2**31), r.randrange(256))
         ext = [] if status == 0 or r.random() < 0.5 else [r.choice((0x2105, 0x0100, r.randrange(65536)))]
-        ops.append({"id": oid, "kind": "generic", "service": r.choice((0x01, 0x0E, 0x10, 0x4B, 0x4C, 0x32, 0x7F, r.randrange(1, 0x80))),
+        ops.append({"id": oid, "kind": "generic", "service": svc,
                     "cls": as_arg(r, cls_n), "inst": as_arg(r, inst_n, max_width=4), "attr": attr, "data": data.hex(), "mode": mode,
                     "route": route, "data_type": dt, "where": where,
                     "reply": {"status": status, "ext": ext, "data": rdata.hex() if status == 0 else b"".hex()}})
